@@ -49,6 +49,10 @@ def cases(draw, prof):
         q = draw(st.sampled_from([p["name"] for p in spec["progs"]["progs"]]))
         what = draw(st.sampled_from(["alloc", "alloc", "capacity", "coverage"]))
         ist = s0 - draw(st.sampled_from([0.0, 1.0]))
+        if k0 >= 2 and draw(st.integers(0, 2)) == 0:
+            # the first entry lies AFTER the program start (but before Y): until then its value is in force (constant extrapolation)
+            ist = s0 + draw(st.integers(1, k0 - 1)) * dt
+            case["first_entry_after_start"] = True
         spec["instr"]["start"] = draw(st.sampled_from([s0, s0, s0 + dt]))
         spec["instr"]["stop"] = None
         v0 = draw(st.floats(0.0, 1.0)) * {"alloc": 5000.0, "capacity": 2000.0, "coverage": 1.0}[what]
@@ -158,6 +162,8 @@ def check(case):
         compare_before(resA, resB, Y, "series-change/" + case["what"])
         changed = differs_after(resA, resB, Y)
         labels.append("series:" + case["what"])
+        if case.get("first_entry_after_start"):
+            labels.append("series:first-entry-after-program-start")
     elif kind == "scenario":
         _, resB = simcase.run_spec(spec, b=dict(b))
         tgt = case["target"]
